@@ -2,4 +2,5 @@ pub mod ast;
 pub mod gen;
 pub mod print;
 pub mod reval;
+pub mod mutate;
 pub mod reduce;
